@@ -343,6 +343,24 @@ for _k, _v in {
     "C16": " Also: parse_expr returns only type-checked trees (typed-tree), the invariant the counted typing unwraps rest on.",
 }.items():
     ADDED[_k] = (ADDED.get(_k, "") + _v).strip()
+# round 12 and the observations triaged after round 11
+for _k, _v in {
+    "C01": " Also: a blank `return` is not refused in a function that yields void (blank-return).",
+    "C02": " Also: the previous-binding lookup of a declaration covers the whole function, as the run-time store does (scope-extent).",
+    "C03": " Also: identifier-shaped prefix words of the grammar are reserved (unknown-name prefix-word); the type of start + step is itself checked to be comparable (loop-step).",
+    "C04": " Also: the loader recognises no record shape by a first byte that is an opcode (framing first-byte).",
+    "C05": " Also: `neg` goes through Primitive::negate on every successful path.",
+    "C06": " Also: Number::negate evaluated on concrete texts (ends of i32 and beyond, zero): kind and text.",
+    "C07": " Also: no dependency is dropped between net_dependencies() and a make_function operand list (capture-list).",
+    "C08": " Also: the process-wide ObjectBuilder is told name and fields on every path that builds (class-of-object).",
+    "C10": " Also: previous-binding lookups are function-wide (lookup-extent).",
+    "C11": " Also: `return` is accepted only inside of a function, so a module is never left by `ret` (module-exit).",
+    "C12": " Also: `K? == K` is accepted wherever `K == K` is (eq-plain).",
+    "C13": " Also: filter keeps the element it handed to its callback (filter-kept); 0.0 and -0.0 hash alike (hash-eq signed-zero).",
+    "C16": " Also: `?=` is built only for a left operand that is the expression of a plain name (codegen-shape).",
+    "C18": " Also: nothing edits the transpiler's line buffer in place (line-not-edited).",
+}.items():
+    ADDED[_k] = (ADDED.get(_k, "") + _v).strip()
 for _pid, _t in ADDED.items():
     if _pid in CLAIMED and _t not in CLAIMED[_pid]["text"]:
         CLAIMED[_pid]["text"] = CLAIMED[_pid]["text"].rstrip() + " " + _t
